@@ -71,3 +71,24 @@ package integrationdiagram
 //@   maypanic
 //@   assert @call:integrationdiagram.MakeBuilderfromStmt [view-gets-command-line-and-own-excludes-in-a-new-set] arg2 != excludeStrSet && fresh(arg2) && forallstr(k, in(k, excludeStrSet) ==> in(k, arg2)) && forallstr(k, in(k, excludes) ==> in(k, arg2)) && arg1 == endpt.GetStmt()
 //@   loop 0 invariant [command-line-excludes-untouched] excludeStrSet != nil && fresh(excludeStrSet) && forallstr(k, in(k, excludeStrSet) == pre(in(k, excludeStrSet)))
+
+// Building the dependency set: every listed application, every application of the model and every application kept
+// so far has the calls of all its endpoints (the collector excepted) looked at, endpoint by endpoint, under its own
+// name and with its own statements — no application is skipped for being a pass-through, excluded or already seen.
+//@ func MakeBuilderfromStmt
+//@   maypanic
+//@   assert @call:integrationdiagram.ProcessCalls [own-endpoint-own-statements] arg0 == appname && arg1 == epname && arg2 == endpt.GetStmt()
+//@   ghostclear @iter:1 listed
+//@   ghostclear @iter:4 listed
+//@   ghostclear @iter:6 listed
+//@   ghostset @call:integrationdiagram.sortedSlice listed
+//@   loop 1 step [every-listed-application-is-walked] ghost("listed")
+//@   loop 4 step [every-application-is-searched-for-callers] ghost("listed")
+//@   loop 6 step [every-kept-application-is-connected] ghost("listed")
+//@   ghostclear @iter:2 processed
+//@   ghostclear @iter:5 processed
+//@   ghostclear @iter:7 processed
+//@   ghostset @call:integrationdiagram.ProcessCalls processed
+//@   loop 2 step [every-endpoint-of-a-listed-application-is-processed] epname != collector ==> ghost("processed")
+//@   loop 5 step [every-endpoint-is-searched-for-callers] epname != collector ==> ghost("processed")
+//@   loop 7 step [every-endpoint-of-a-kept-application-is-connected] epname != collector ==> ghost("processed")
